@@ -16,7 +16,14 @@ Three ties between the Coq models (Model/Pool.v, Model/RunEffects.v) and the rea
     (fail = Assign) and Pool.run_stage_desc; the property's own predicate evaluated by the
     extracted RunEffects.check_trace_sx on the OBSERVED effects.
  P  other fail points of run_mapping (marker cache, CSV, summary) validate the
-    try/except/finally model beyond the assignment step.
+    try/except/finally model beyond the assignment step; so do failures INSIDE `finally`
+    (log_path / output_path an existing directory, HDF5 path in a missing directory), a query file
+    that is absent or a directory (the copy step AND read_uns_from_h5ad in `finally` raise) and a
+    real failing worker TOGETHER with an unwritable log / JSON / HDF5 path (the exception of
+    `finally` replaces the inspector's; F34 when the log cannot be written).  Where the exception
+    the caller saw was raised is read off its traceback against the ast of the real run_mapping.
+ X' what `raises` means: forked workers raising RuntimeError / SystemExit(None | k | text) /
+    KeyboardInterrupt against ExitCode.raise_exit_code and is_exception (tag 1407).
  X  exit codes: real forked workers that return / raise / os._exit(k) / are killed by a signal;
     multiprocessing.Process.exitcode compared with Pool.exit_code_of (os._exit(256) -> 0).
  In V, for the selection scheduler, the locals started_parents / completed_parents / process_dict of the
@@ -125,6 +132,68 @@ def _on_alarm(signum, frame):
     raise StageHang()
 
 
+def exception_chain(e):
+    """The exception and its chain of __context__ (the exception that was being handled / propagated when it was
+    raised): class, message and the (function, line) pairs of its traceback that lie in run_mapping / _run_mapping."""
+    out = []
+    seen = set()
+    while e is not None and id(e) not in seen and len(out) < 10:
+        seen.add(id(e))
+        fr = [(f.name, f.lineno) for f in traceback.extract_tb(e.__traceback__) if f.name in ('run_mapping', '_run_mapping')]
+        out.append({'etype': type(e).__name__, 'msg': str(e)[:300], 'frames': fr})
+        e = e.__context__
+    return out
+
+
+_RM_LAYOUT = {}
+
+
+def run_mapping_layout():
+    """Line ranges of the body of `try` and of the `finally` block of the real run_mapping, and for each statement of
+    the `finally` block the fail point of Model/RunEffects.v it is (7 log file, 10 read_uns, 8 JSON, 9 HDF5; 0 = a
+    statement the model gives no fail point).  Read off the source with ast: no line number is hard-wired."""
+    if _RM_LAYOUT:
+        return _RM_LAYOUT
+    import ast
+    import inspect
+    import cell_type_mapper.cli.from_specified_markers as mod
+    src = inspect.getsource(mod)
+    tree = ast.parse(src)
+    fn = [n for n in tree.body if isinstance(n, ast.FunctionDef) and n.name == 'run_mapping'][0]
+    tr = [n for n in ast.walk(fn) if isinstance(n, ast.Try) and n.finalbody][0]
+    _RM_LAYOUT['body'] = (tr.body[0].lineno, tr.body[-1].end_lineno)
+    _RM_LAYOUT['finally'] = (tr.finalbody[0].lineno, tr.finalbody[-1].end_lineno)
+    stmts = []
+    for st in tr.finalbody:
+        seg = ast.get_source_segment(src, st) or ''
+        pt = 7 if 'write_log' in seg else 10 if 'read_uns_from_h5ad' in seg else 8 if 'json.dumps' in seg \
+            else 9 if 'blob_to_hdf5' in seg else 0
+        stmts.append((st.lineno, st.end_lineno, pt))
+    _RM_LAYOUT['stmts'] = stmts
+    return _RM_LAYOUT
+
+
+def where_raised(chain):
+    """(fin_point, body_in_chain): fin_point = the fail point (7..10, -1 for another statement) of the `finally` block
+    of run_mapping at which the exception the caller saw was raised, 0 when it was not raised there; body_in_chain =
+    some exception of the chain passed through the body of `try` of run_mapping."""
+    lay = run_mapping_layout()
+
+    def line(x):
+        ls = [ln for nm, ln in x['frames'] if nm == 'run_mapping']
+        return ls[0] if ls else None
+    fin_point = 0
+    if chain:
+        ln = line(chain[0])
+        if ln is not None and lay['finally'][0] <= ln <= lay['finally'][1]:
+            fin_point = -1
+            for a, b, pt in lay['stmts']:
+                if a <= ln <= b and pt:
+                    fin_point = pt
+    body = any(line(x) is not None and lay['body'][0] <= line(x) <= lay['body'][1] for x in (chain or []))
+    return fin_point, body
+
+
 def call_stage(fn, stages, **plan):
     """Run fn() under the given injector plan; wait for every descendant; return
     dict(ok, error, code_in_message, exit_codes, logs).  A call that does not return within
@@ -136,7 +205,7 @@ def call_stage(fn, stages, **plan):
     old = signal.signal(signal.SIGALRM, _on_alarm)
     t_start = time.time()
     outer_left = signal.alarm(HANG_LIMIT_S)          # seconds left on the check's overall watchdog (0 = none)
-    with quiet():
+    with quiet() as out_buf:
         try:
             res['value'] = fn()
         except StageHang:
@@ -149,6 +218,7 @@ def call_stage(fn, stages, **plan):
             res['etype'] = type(e).__name__
             res['error'] = f'{type(e).__name__}: {e}'
             res['tb'] = traceback.format_exc()[-1500:]
+            res['chain'] = exception_chain(e)
         finally:
             signal.alarm(0)
             signal.signal(signal.SIGALRM, old)
@@ -156,6 +226,7 @@ def call_stage(fn, stages, **plan):
                 signal.alarm(max(1, int(outer_left - (time.time() - t_start))))
         import gc
         gc.collect()
+    res['stdout'] = out_buf.getvalue()
     res['exit_codes'] = faults.settle()
     res['logs'] = {st: faults.parent_log(st) for st in stages}
     res['polls'] = {st: faults.STATE['clock'][st] for st in stages}
@@ -342,6 +413,56 @@ def _exit_worker(mode, arg):
         time.sleep(5)
 
 
+def _raise_worker(cls, arg):
+    if cls == 0:
+        raise RuntimeError('worker raises an Exception subclass (exit-code tie)')
+    if cls == 1:
+        raise SystemExit()
+    if cls == 2:
+        raise SystemExit(arg)
+    if cls == 3:
+        raise SystemExit('worker raises SystemExit with a text')
+    raise KeyboardInterrupt()
+
+
+def raise_class_tie(ctx):
+    """Model/ExitCode.v raise_exit_code / is_exception (audit 4, A6: what `Raises` means) against real forked workers and a real
+    `except Exception` clause: Exception subclass, SystemExit(None), SystemExit(k), SystemExit('text'), KeyboardInterrupt."""
+    import multiprocessing
+    plan = [(0, 0), (1, 0), (3, 0), (4, 0)] + [(2, k) for k in (0, 1, 3, 255, 256, 257, -1)]
+    observed = []
+    with quiet():
+        for cls, arg in plan:
+            p = multiprocessing.Process(target=_raise_worker, args=(cls, arg))
+            p.start()
+            p.join(30)
+            if p.exitcode is None:
+                p.kill()
+                p.join(5)
+            caught = None
+            try:
+                try:
+                    _raise_worker(cls, arg)
+                except Exception:
+                    caught = True
+            except BaseException:
+                caught = False
+            observed.append([p.exitcode, caught])
+    outs = ctx.model([(1407, [cls, arg]) for cls, arg in plan])
+    names = {0: 'RuntimeError', 1: 'SystemExit()', 2: 'SystemExit(k)', 3: "SystemExit('text')", 4: 'KeyboardInterrupt'}
+    for (cls, arg), obs, out in zip(plan, observed, outs):
+        ctx.count(('X-raise', cls, arg), nontrivial=True)
+        ctx.dist('exit_code', f'raises {names[cls]} {arg if cls == 2 else ""} -> {obs[0]}, caught by except Exception: {obs[1]}')
+        if out[0] != 0 or [out[1][0], bool(out[1][1])] != obs:
+            ctx.disagreements_checked += 1
+            ctx.violation(f'a worker that raises {names[cls]}({arg}): exitcode / caught by `except Exception` {obs}; '
+                          f'ExitCode.raise_exit_code / is_exception say {out}',
+                          {'kind': 'raise-class', 'cls': names[cls], 'arg': arg, 'observed': obs, 'model': out,
+                           'class': 'corr:ExitCode.raise_exit_code'}, no_input=True)
+        else:
+            ctx.traces_validated += 1
+
+
 def exit_code_tie(ctx):
     """Model/Pool.v exit_code_of against multiprocessing.Process.exitcode of real forked workers: return, raise,
     os._exit(k) for k inside and outside 0..255 (the status is cut to its low 8 bits: os._exit(256) is seen as 0),
@@ -465,12 +586,18 @@ def selection_virtual(ctx, rng, refm_path, genes, base, n_worlds):
 def observe_mapping(d, cfg, res):
     out = d / 'out'
     o = {'raised': not res['ok'], 'error': res['error'], 'out_listing': listing(out), 'tmp_listing': listing(d / 'tmp')}
-    logtxt = (out / 'log.txt').read_text() if (out / 'log.txt').exists() else None
+    logtxt = (out / 'log.txt').read_text() if (out / 'log.txt').is_file() else None
     o['log_file'] = logtxt is not None
     jpath = pathlib.Path(cfg['extended_result_path'])
-    blob = json.load(open(jpath)) if jpath.exists() else None
+    blob = json.load(open(jpath)) if jpath.is_file() else None
     o['json_keys'] = list(blob.keys()) if blob is not None else None
-    text = logtxt if logtxt is not None else ('\n'.join(blob['log']) if blob else '')
+    # where the log lines are read: the log file, else the "log" key of the JSON, else - when neither was written -
+    # the lines log.info printed on stdout (the traceback is added with add_msg, which does not print: tag 13 is
+    # then unobservable)
+    o['log_source'] = 'file' if logtxt is not None else 'json' if blob else 'stdout'
+    text = logtxt if logtxt is not None else ('\n'.join(blob['log']) if blob else res.get('stdout', ''))
+    o['chain'] = res.get('chain')
+    o['fin_point'], o['body_in_chain'] = where_raised(res.get('chain'))
     marks = []
     for tag, s in LOG_MARKS:
         i = text.find(s)
@@ -484,7 +611,7 @@ def observe_mapping(d, cfg, res):
     o['csv'] = cfg['csv_result_path'] is not None and pathlib.Path(cfg['csv_result_path']).exists()
     hp = cfg['hdf5_result_path']
     o['hdf5'] = None
-    if hp is not None and pathlib.Path(hp).exists():
+    if hp is not None and pathlib.Path(hp).is_file():
         with h5py.File(hp, 'r') as f:
             ds = sorted(f.keys())
             meta = list(json.loads(f['metadata'][()].decode('utf-8')).keys()) if 'metadata' in f else None
@@ -515,7 +642,14 @@ def observed_trace(o, flags):
     tags += [t for t in o['log_tags'] if t in (4, 5, 6)]
     # a failure inside `finally` (RunEffects.FailFinally, tag 20): the call raised and no traceback reached the log
     # (the `except` clause did not run); the exception ends the trace, nothing is re-raised
-    in_finally = o['raised'] and 13 not in o['log_tags'] and not o['traceback_in_log_file']
+    # Observed on the exception itself: the line of run_mapping at which it was raised lies in the `finally` block
+    # (where_raised; the former rule "no traceback in the log" is wrong when the body failed too: audit 4, A2b).
+    if o.get('chain'):
+        in_finally = o['fin_point'] != 0
+        body_failed = o['body_in_chain']
+    else:
+        in_finally = o['raised'] and 13 not in o['log_tags'] and not o['traceback_in_log_file']
+        body_failed = o['raised'] and not in_finally
     if o['csv']:
         tags.append(7)
     if o.get('obsm'):
@@ -524,8 +658,13 @@ def observed_trace(o, flags):
         tags.append(9)
     if 11 in o['log_tags']:
         tags.append(11)
-    if o['raised'] and not in_finally:
+    if body_failed:
         tags.append(12)
+        if o.get('log_source') == 'stdout':
+            # neither the log file nor the JSON reached the disk: the traceback the `except` clause adds to the in-memory log
+            # (add_msg does not print) cannot be observed; it is ASSUMED here, so that the shape predicates can be evaluated,
+            # and left out of the tag-by-tag comparison with the model (compare_mapping)
+            tags.append(13)
     if o['traceback_in_log_file'] or (not o['log_file'] and 13 in o['log_tags']):
         tags.append(13)                      # before the log file iff the file holds the traceback
     if not o['result_buffer_left']:
@@ -558,7 +697,7 @@ def compare_mapping(ctx, items):
         o = it['obs']
         jk = [KEY_TAG.get(x, 99) for x in (o['json_keys'] or [])]
         hk = [[KEY_TAG.get(x, 99) for x in (o['hdf5']['meta_keys'] or [])], o['hdf5']['with_results']] if o['hdf5'] else []
-        cases.append((1404, [it['flags'], it['fail_point']]))
+        cases.append((1404, [it['flags'], it['fail_point'], it.get('fin_point', 0)]))
         cases.append((1405, [it['flags'], o['raised'], observed_trace(o, it['flags']), jk, hk]))
     outs = ctx.model(cases)
     for i, it in enumerate(items):
@@ -569,20 +708,28 @@ def compare_mapping(ctx, items):
             ctx.violation('model rejected the mapping observation', dict(rep, model=[m, chk], **{'class': 'corr:RunEffects.run_mapping'}),
                           no_input=True)
             continue
-        raised_m, tags_m, jk_m, hk_m = m[1]
+        raised_m, tags_m, jk_m, hk_m, exc_m = m[1]
         jk_m = jk_m[0] if jk_m else []          # of_option: () = None, (x) = Some x
         hk_m = hk_m[0] if hk_m else []
-        prop_ok, failed_ok, no_csv, clean_ok = chk[1]
-        faulted = it['fail_point'] != 0
+        prop_ok, failed_ok, no_csv, clean_ok, fin_ok, double_ok = chk[1]
+        fin_pt = it.get('fin_point', 0)
+        faulted = it['fail_point'] != 0 or fin_pt != 0
         # (b) the property on the observation
-        if faulted and it.get('expect_code') is not None:      # a worker failure: the situation C14 speaks about
+        if faulted and it.get('expect_code') is not None and fin_pt == 7 and not prop_ok and not o['log_file'] \
+                and o['raised'] and 11 not in o['log_tags'] and not o['csv'] and o['json_keys'] is None and o['hdf5'] is None:
+            # F34: a worker failed AND the log path cannot be written: every clause of C14 holds but "it still writes its log"
+            ctx.violation(f'mapping with {it["what"]}: the run raises {o["error"]} and writes no log (out={o["out_listing"]})',
+                          dict(rep, **{'class': 'F34-log-not-written-when-log-path-unwritable-after-worker-failure'}))
+        elif faulted and it.get('expect_code') is not None:      # a worker failure: the situation C14 speaks about
             bad = []
             if not prop_ok:
                 bad.append('prop_trace_ok false (raise / success message / log / result records)')
             if it['fail_point'] <= 3 and not no_csv:
                 bad.append('a CSV was written')
-            if it.get('expect_code') is not None and o['error'] is not None and \
-                    not o['error'].startswith('RuntimeError'):
+            # the inspector's RuntimeError is what the caller sees - or, when a step of `finally` raised after it, the
+            # __context__ of what the caller sees
+            insp = [x for x in (o.get('chain') or []) if x['etype'] == 'RuntimeError' and 'exited with code' in x['msg']]
+            if o['error'] is not None and not (o['error'].startswith('RuntimeError') if fin_pt == 0 else bool(insp)):
                 bad.append(f'error is not the RuntimeError of the inspector: {o["error"]}')
             if bad:
                 ctx.violation(f'mapping with {it["what"]}: ' + '; '.join(bad) + f'; error={o["error"]}, out={o["out_listing"]}, '
@@ -598,14 +745,29 @@ def compare_mapping(ctx, items):
         got_tags = [t for t in obs_tags if t in OBSERVABLE]
         jk_o = [KEY_TAG.get(x, 99) for x in o['json_keys']] if o['json_keys'] is not None else []
         hk_o = [[KEY_TAG.get(x, 99) for x in (o['hdf5']['meta_keys'] or [])], int(o['hdf5']['with_results'])] if o['hdf5'] else []
+        if o['log_source'] == 'stdout':          # neither log file nor JSON: the traceback (13) is not observable
+            exp_tags = [t for t in exp_tags if t != 13]
+            got_tags = [t for t in got_tags if t != 13]
+        # the exception the caller saw (RunEffects.propagated): 0 none / 1 the body's, re-raised / 2 raised in `finally`
+        # at which step, with or without a body exception as __context__
+        if o.get('chain') or not o['raised']:
+            exc_o = [0, 0, 0] if not o['raised'] else \
+                [2, o['fin_point'], exc_m[2] if o['body_in_chain'] else 0] if o['fin_point'] else [1, exc_m[1], 0]
+            exc_good = exc_o == list(exc_m) and (exc_m[0] != 1 or o['body_in_chain'])
+        else:
+            exc_good = True                      # StageHang: no exception object
+        shape_ok = (failed_ok if (1 <= it['fail_point'] <= 5 and fin_pt == 0) else
+                    fin_ok if (it['fail_point'] == 0 and fin_pt != 0) else
+                    bool(double_ok[[7, 8, 9, 10].index(fin_pt)]) if (it['fail_point'] != 0 and fin_pt != 0) else True)
         good = (bool(raised_m) == o['raised'] and exp_tags == got_tags and jk_m == jk_o and hk_m == hk_o
-                and (not (1 <= it['fail_point'] <= 5) or failed_ok) and o['json_log_equals_file'] in (True, None))
+                and shape_ok and exc_good and o['json_log_equals_file'] in (True, None))
         if it.get('expect_code') is not None:
             good = good and it['msg_code'] == it['expect_code'] and it['exit_code_of_worker'] == it['expect_code']
         if not good:
             ctx.disagreements_checked += 1
             ctx.violation(f'mapping with {it["what"]}: effects differ from RunEffects.run_mapping: model tags {exp_tags} json {jk_m} '
-                          f'hdf5 {hk_m}; observed tags {got_tags} json {jk_o} hdf5 {hk_o}; msg code {it.get("msg_code")} '
+                          f'hdf5 {hk_m} exc {exc_m}; observed tags {got_tags} json {jk_o} hdf5 {hk_o} fin_point {o["fin_point"]} '
+                          f'body_in_chain {o["body_in_chain"]} chain {o.get("chain")}; msg code {it.get("msg_code")} '
                           f'exit code {it.get("exit_code_of_worker")} expected {it.get("expect_code")}',
                           dict(rep, model=m[1], **{'class': 'corr:RunEffects.run_mapping'}), no_input=True)
         else:
@@ -853,6 +1015,19 @@ def stage_faults(ctx, rng, stage, tag, make_fn, k_of, workers_of, n_processors, 
 
 
 # ------------------------------------------------------------------ P: other fail points of run_mapping
+# scenario -> (fail point of the body, fail point of `finally`) of Model/RunEffects.v; 0 = none
+SCENARIOS = [
+    ('marker_cache', 2, 0), ('csv_nodir', 4, 0), ('summary_nodir', 6, 0), ('hdf5_nodir', 0, 9),
+    # audit 4, A2a: the query file is absent / a directory: the copy step of the body raises AND
+    # read_uns_from_h5ad(config['query_path']) in `finally` raises; only the log file is written
+    ('query_absent', 1, 10), ('query_isdir', 1, 10),
+    # audit 4, A2b: a worker fails AND a step of `finally` fails: the exception of `finally` replaces the inspector's
+    ('worker_log_isdir', 3, 7), ('worker_json_isdir', 3, 8), ('worker_hdf5_nodir', 3, 9),
+    # a step of `finally` fails after a clean body: log_path / output_path an existing directory (passes the probe)
+    ('log_isdir', 0, 7), ('json_isdir', 0, 8),
+]
+
+
 def other_fail_points(ctx, rng, n):
     items = []
     base = ctx.scratch / 'points'
@@ -861,32 +1036,66 @@ def other_fail_points(ctx, rng, n):
     for i in range(n):
         d = base / f'p{i}'
         d.mkdir()
-        point = [2, 4, 6, 9][i % 4]
+        name, point, fin_point = SCENARIOS[i % len(SCENARIOS)]
         cfg = pipeline.config_for(d, base / 'query.h5ad', base / 'stats.h5', base / 'markers.json',
                                   chunk_size=3, n_processors=2, csv=(point == 4 or rng.random() < 0.5),
-                                  hdf5=(point == 9 or rng.random() < 0.7))
-        if point == 2:      # the marker lookup names no gene of the query at the root: the marker cache raises
+                                  hdf5=(fin_point == 9 or rng.random() < 0.7))
+        fault = None
+        if name.startswith('worker_'):
+            fault = {'stage': 'mapping', 'worker': rng.randrange(2), 'mode': rng.choice(MODES), 'point': rng.choice(POINTS)}
+        if name == 'marker_cache':      # the marker lookup names no gene of the query at the root: the marker cache raises
             bad = {'None': ['nonexistent_gene_a', 'nonexistent_gene_b']}
             json.dump(bad, open(d / 'bad_markers.json', 'w'))
             cfg['query_markers']['serialized_lookup'] = str(d / 'bad_markers.json')
-        elif point == 4:    # the CSV path is in a directory that does not exist
+        elif name == 'csv_nodir':       # the CSV path is in a directory that does not exist
             cfg['csv_result_path'] = str(d / 'no_such_dir' / 'result.csv')
-        elif point == 9:    # a failure inside `finally`: the HDF5 path (not probed before `try`) is in a directory
+        elif name in ('hdf5_nodir', 'worker_hdf5_nodir'):
+                            # a failure inside `finally`: the HDF5 path (not probed before `try`) is in a directory
                             # that does not exist; obsm requested on a private copy of the query file (audit 3, item 13)
             cfg['hdf5_result_path'] = str(d / 'no_such_dir' / 'result.h5')
             if rng.random() < 0.7:
                 shutil.copy(base / 'query.h5ad', d / 'query.h5ad')
                 cfg['query_path'] = str(d / 'query.h5ad')
                 cfg['obsm_key'] = 'cdm'
-        else:               # the summary path is in a directory that does not exist
+        elif name == 'summary_nodir':   # the summary path is in a directory that does not exist
             cfg['summary_metadata_path'] = str(d / 'no_such_dir' / 'summary.json')
-        res = call_stage(mapping_call(cfg), ['mapping'], poll_sleep=0.002)
+        elif name == 'query_absent':
+            cfg['query_path'] = str(d / 'absent.h5ad')
+        elif name == 'query_isdir':
+            (d / 'query_dir.h5ad').mkdir()
+            cfg['query_path'] = str(d / 'query_dir.h5ad')
+        elif name in ('worker_log_isdir', 'log_isdir'):
+            pathlib.Path(cfg['log_path']).mkdir()
+        elif name in ('worker_json_isdir', 'json_isdir'):
+            pathlib.Path(cfg['extended_result_path']).mkdir()
+        if fault is None:
+            res = call_stage(mapping_call(cfg), ['mapping'], poll_sleep=0.002)
+        else:
+            res = call_stage(mapping_call(cfg), ['mapping'], fault=fault, trace_dir=d / 'trace', poll_sleep=0.002)
         o = observe_mapping(d, cfg, res)
-        what = f'fail point {point}'
-        items.append({'cfg': cfg, 'flags': cfg_flags(cfg), 'fail_point': point, 'obs': o, 'what': what,
-                      'rep': {'kind': 'mapping-fail-point', 'point': point, 'config': cfg}})
-        ctx.count(('P', point, i), nontrivial=True)
-        ctx.dist('fault', f'mapping fail point {point}')
+        what = f'scenario {name} (fail point {point} of the body, {fin_point} of finally)' + \
+            (f', worker {fault["worker"]} {fault["mode"]} {fault["point"]} work' if fault else '')
+        it = {'cfg': cfg, 'flags': cfg_flags(cfg), 'fail_point': point, 'fin_point': fin_point, 'obs': o, 'what': what,
+              'rep': {'kind': 'mapping-fail-point', 'scenario': name, 'point': point, 'fin_point': fin_point, 'fault': fault,
+                      'config': cfg}}
+        if fault is not None:
+            if not res['fired']:
+                ctx.violation(f'{what}: the fault point was not reached', dict(it['rep'], **{'class': 'c14-harness-fault-not-fired'}),
+                              no_input=True)
+                continue
+            codes = res['exit_codes']['mapping']
+            it['expect_code'] = faults.EXIT_CODE[fault['mode']]
+            # the inspector's message is the __context__ of the exception the caller saw
+            mc = [re.search(r'exited with code (-?\d+)', x['msg']) for x in (res.get('chain') or [])]
+            mc = [int(m.group(1)) for m in mc if m]
+            it['msg_code'] = mc[0] if mc else None
+            it['exit_code_of_worker'] = codes[fault['worker']] if fault['worker'] < len(codes) else None
+        items.append(it)
+        ctx.count(('P', name, i), nontrivial=True)
+        ctx.dist('fault', f'mapping scenario {name}')
+        if i < len(SCENARIOS) and fin_point and point:
+            ctx.sample({'what': what, 'error': o['error'], 'context': [f"{x['etype']}: {x['msg'][:80]}" for x in (o['chain'] or [])[1:]],
+                        'out': o['out_listing'], 'json_keys': o['json_keys']})
         shutil.rmtree(d, ignore_errors=True)
     compare_mapping(ctx, items)
     shutil.rmtree(base, ignore_errors=True)
@@ -900,7 +1109,9 @@ def run(ctx):
     ctx.rule = ('V: a generated world (exit code and termination poll of every worker) driven through the real dispatch/drain '
                 'loop; non-trivial = at least one failing and one clean worker, or >= 3 workers with >= 2 at a time.  '
                 'F: one real forked worker made to fail; non-trivial = every faulted run of a stage with >= 2 workers.  '
-                'P: run_mapping made to fail at the marker cache / CSV / summary step.')
+                'P: run_mapping made to fail at the marker cache / CSV / summary step, inside `finally` (log file, JSON, HDF5 path '
+                'unwritable), with a missing query file (body and `finally` both fail), and with a failing worker AND an unwritable '
+                'log / JSON / HDF5 path.')
     ctx.assumptions += [
         'os._exit(k) with k a multiple of 256 is reported by the operating system as exit code 0: no parent can see it '
         '(Pool.exit_code_of models the mod 256; c14_abnormal_codes excludes it; the tie X checks it on real workers)',
@@ -909,10 +1120,22 @@ def run(ctx):
         'ignored or stopping signals - SIGCHLD, SIGCONT, SIGURG, SIGWINCH, SIGPIPE, SIGXFSZ, SIGSTOP... - do not end a worker: '
         'ExitCode.terminating_signal)',
         'every started worker terminates (a hanging worker, a dying Manager process and a crash of the parent are not modelled)',
-        'failures inside the `finally` block of run_mapping (RunEffects fail points 7 log file, 8 JSON, 9 HDF5) are not worker '
-        'failures and outside the statement of C14; point 9 (hdf5_output_path in a missing directory: the only one of the three '
-        'paths run_mapping does not probe before `try`) is driven for correspondence only: the real call raises after the success '
-        'message, CSV, obsm and JSON were written, as the model says (c14_failure_in_finally_after_success); 7 and 8 are not driven',
+        'failures inside the `finally` block of run_mapping (RunEffects fail points 7 log file, 10 read_uns_from_h5ad of the query, '
+        '8 JSON, 9 HDF5) are not worker failures; after a clean body they are outside the statement of C14 and driven for '
+        'correspondence only (7: log_path an existing directory, 8: output_path an existing directory - both pass the probe before '
+        '`try`, which only probes paths that do not exist -, 9: hdf5_output_path in a missing directory; the real call raises after '
+        'the success message, CSV and obsm were written: c14_failure_in_finally_after_success); TOGETHER with a failure of the body '
+        'they are driven too (audit 4, A2): a real worker made to fail + 7 / 8 / 9, and a query file that is absent / a directory = '
+        'copy step 1 + 10 (10 alone cannot be driven: a query file the body accepts and `finally` cannot open does not exist); '
+        'where the exception the caller saw was raised (body of `try` / which statement of `finally`) and whether a body exception '
+        'is in its chain of __context__ is read off the traceback line numbers against the ast of the real run_mapping',
+        'a worker failure with log_path an existing directory is finding F34 (no log written: KNOWN-FINDING), an invalid '
+        'configuration that the probe before `try` lets through',
+        '_clean_up(tmp_dir) in the `finally` block (rmdir / unlink of the run\'s own tmp directory) is assumed not to raise; '
+        '_clean_up_result_buffer swallows OSError; the other statements of the block do no I/O',
+        'a failing step raises a subclass of Exception (the clause is `except Exception`): a KeyboardInterrupt or SystemExit in '
+        'the body would skip the traceback in the log (tag 13) - not modelled, not driven; a faulted worker in mode raise raises '
+        'RuntimeError (exit code 1; a worker raising SystemExit(0) exits with 0 and is not a failure any parent can see)',
         'fork start method; faults are injected by harness-side wrappers of module-level names (harness/faults.py), '
         'active only under CELL_TYPE_MAPPER_VERIF=1; no source hook',
         'a stage called with n_processors <= 1 that runs its work inline (statistics) has no worker and is not faulted',
@@ -972,6 +1195,7 @@ def run(ctx):
     shutil.rmtree(vb, ignore_errors=True)
     # ---- X: the exit codes multiprocessing reports against Pool.exit_code_of
     exit_code_tie(ctx)
+    raise_class_tie(ctx)
 
     # ---- F: real faults
     if ctx.quick():
@@ -1028,7 +1252,7 @@ def run(ctx):
         shutil.rmtree(fb, ignore_errors=True)
 
     # ---- P
-    other_fail_points(ctx, rng, ctx.n(4, 12))
+    other_fail_points(ctx, rng, ctx.n(len(SCENARIOS), 3 * len(SCENARIOS)))
     faults.uninstall()
     ctx.extra['stages_faulted'] = sorted({k.split(' ')[0] for k in ctx.extra.get('distribution', {}).get('fault', {})})
 
